@@ -324,7 +324,8 @@ func distrUpdate(x *Exec, f *distrFam, toks []string) string {
 	case "full":
 		msg := &distrtypes.MsgUpdateParams{Authority: auth, SubDistributors: cloneSubs(f.pending)}
 		res, _ = x.deliver(msg.ValidateBasic, func(ctx sdk.Context) error {
-			_, err := ms.UpdateParams(sdk.WrapSDKContext(ctx), msg)
+			r_, err := ms.UpdateParams(sdk.WrapSDKContext(ctx), msg)
+			noteResp(r_, err)
 			return err
 		})
 	case "full-then-fail":
@@ -344,19 +345,22 @@ func distrUpdate(x *Exec, f *distrFam, toks []string) string {
 			msg.SubDistributor = &c[0]
 		}
 		res, _ = x.deliver(msg.ValidateBasic, func(ctx sdk.Context) error {
-			_, err := ms.UpdateSubDistributorParam(sdk.WrapSDKContext(ctx), msg)
+			r_, err := ms.UpdateSubDistributorParam(sdk.WrapSDKContext(ctx), msg)
+			noteResp(r_, err)
 			return err
 		})
 	case "share":
 		msg := &distrtypes.MsgUpdateSubDistributorDestinationShareParam{Authority: auth, SubDistributorName: unesc(toks[3]), DestinationName: unesc(toks[4]), Share: decTok(toks[5])}
 		res, _ = x.deliver(msg.ValidateBasic, func(ctx sdk.Context) error {
-			_, err := ms.UpdateSubDistributorDestinationShareParam(sdk.WrapSDKContext(ctx), msg)
+			r_, err := ms.UpdateSubDistributorDestinationShareParam(sdk.WrapSDKContext(ctx), msg)
+			noteResp(r_, err)
 			return err
 		})
 	case "burn":
 		msg := &distrtypes.MsgUpdateSubDistributorBurnShareParam{Authority: auth, SubDistributorName: unesc(toks[3]), BurnShare: decTok(toks[4])}
 		res, _ = x.deliver(msg.ValidateBasic, func(ctx sdk.Context) error {
-			_, err := ms.UpdateSubDistributorBurnShareParam(sdk.WrapSDKContext(ctx), msg)
+			r_, err := ms.UpdateSubDistributorBurnShareParam(sdk.WrapSDKContext(ctx), msg)
+			noteResp(r_, err)
 			return err
 		})
 	default:
